@@ -22,7 +22,7 @@ inductive ObsOnly (V : List Name) : Expr → Prop
   | one : ObsOnly V .one
   | zero : ObsOnly V .zero
 
-theorem mem_insertNat {x y : Name} {l : List Name} : y ∈ insertNat x l ↔ y = x ∨ y ∈ l := by
+theorem IdAux.mem_insertNat {x y : Name} {l : List Name} : y ∈ insertNat x l ↔ y = x ∨ y ∈ l := by
   induction l with
   | nil => simp [insertNat]
   | cons a l ih =>
@@ -33,14 +33,14 @@ theorem mem_insertNat {x y : Name} {l : List Name} : y ∈ insertNat x l ↔ y =
       · rename_i h; subst h; simp
       · simp only [List.mem_cons, ih]; tauto
 
-theorem mem_sortNames {y : Name} {l : List Name} : y ∈ sortNames l ↔ y ∈ l := by
+theorem IdAux.mem_sortNames {y : Name} {l : List Name} : y ∈ sortNames l ↔ y ∈ l := by
   induction l with
   | nil => simp [sortNames]
   | cons a l ih =>
     unfold sortNames at ih ⊢
     simp only [List.foldr_cons, mem_insertNat, ih, List.mem_cons]
 
-theorem plainIn_of_mem_plainVars {V l : List Name} (h : ∀ x ∈ l, x ∈ V) :
+theorem IdAux.plainIn_of_mem_plainVars {V l : List Name} (h : ∀ x ∈ l, x ∈ V) :
     ∀ v ∈ (sortNames l).map Var.plain, v.PlainIn V := by
   intro v hv
   simp only [List.mem_map] at hv
